@@ -147,7 +147,9 @@ pub async fn run(seed: u64, sched: Rc<Sched>, keep_log: bool) -> (CaseResult, Ve
                     continue;
                 }
                 if let Some(cur) = copy.get(&a.key) {
-                    if !a.msg.is_newer(&cur.msg) {
+                    // The model's own notion of "strictly newer" (not the repo's `is_newer`).
+                    let newer = (a.msg.version, a.msg.timestamp) > (cur.msg.version, cur.msg.timestamp);
+                    if !newer {
                         continue;
                     }
                     replaced += 1;
